@@ -1,0 +1,9 @@
+//go:build verif
+
+package xts
+
+// VerifC13Mul2 exposes the tweak doubling in GF(2^128) (mul2) so that it can be
+// checked on boundary tweak values that the AES-derived tweak of a given sector
+// number reaches only with negligible probability. Verification hook: compiled
+// only with the "verif" build tag.
+func VerifC13Mul2(tweak *[16]byte) { mul2(tweak) }
